@@ -360,6 +360,7 @@ func (t *Terminfo) TParm(s string, p ...interface{}) string {
 	)
 
 	skip := emit
+	nest := 0 // conditionals opened inside the part being skipped
 
 	for {
 
@@ -380,14 +381,23 @@ func (t *Terminfo) TParm(s string, p ...interface{}) string {
 			// XXX Error
 			break
 		}
-		if skip == toEnd {
-			if ch == ';' {
-				skip = emit
-			}
-			continue
-		} else if skip == toElse {
-			if ch == 'e' || ch == ';' {
-				skip = emit
+		if skip != emit {
+			// A nested %? ... %; inside the skipped part must not end
+			// the skip: only a closer (or, when looking for the else
+			// part, a %e) at our own nesting level does.
+			switch ch {
+			case '?':
+				nest++
+			case ';':
+				if nest > 0 {
+					nest--
+				} else {
+					skip = emit
+				}
+			case 'e':
+				if nest == 0 && skip == toElse {
+					skip = emit
+				}
 			}
 			continue
 		}
